@@ -124,6 +124,26 @@ pub fn c07_probe(
             ));
             return;
         }
+        // `metadata()` hands back exactly the three buffers the instance was built over
+        let md = unsafe { twin.alloc.metadata() };
+        let same = md.local.as_ptr() == twin.bufs.local.ptr as *const u8
+            && md.trees.as_ptr() == twin.bufs.trees.ptr as *const u8
+            && md.lower.as_ptr() == twin.bufs.lower.ptr as *const u8
+            && md.local.len() == twin.bufs.local.len
+            && md.trees.len() == twin.bufs.trees.len
+            && md.lower.len() == twin.bufs.lower.len;
+        if !same {
+            viol.push(Violation::new(
+                "C07",
+                "metadata() does not return the buffers the allocator was built over",
+                format!(
+                    "local {:?}/{} trees {:?}/{} lower {:?}/{}",
+                    md.local.as_ptr(), md.local.len(), md.trees.as_ptr(), md.trees.len(),
+                    md.lower.as_ptr(), md.lower.len()
+                ),
+            ));
+            return;
+        }
         sut.bufs.restore(&st.bytes);
         let (oa, ob) = (observable(sut), observable(twin));
         if oa != ob {
